@@ -57,6 +57,25 @@ def stage_mc(ctx):
     return vectors
 
 
+def stage_proofs(ctx):
+    """Laws proved for all values with the TLA+ proof system (TLAPS, SMT back end) where TLC evaluates them on a grid.
+    A proof that does not go through is a defect of the specification work, not of the code: tool error."""
+    ctx.proofs = []
+    for pr in ctx.cfg.get("proofs", []):
+        src = os.path.join(lib.SPEC, pr["module"])
+        dst = os.path.join(ctx.wd, os.path.basename(src))
+        with open(src) as f, open(dst, "w") as g:
+            g.write(f.read())
+        rc, out, dt = lib.run(["timeout", "-k", "5", str(pr.get("timeout", 900)), "tlapm", "--threads", "8", "--stretch", "2", os.path.basename(dst)],
+                              timeout=pr.get("timeout", 900) + 30, cwd=ctx.wd)
+        import re as _re
+        m = _re.search(r"All (\d+) obligations? proved", out)
+        if rc != 0 or not m:
+            raise ToolError("TLAPS did not prove every obligation of %s\n%s" % (pr["module"], out[-3000:]))
+        ctx.proofs.append(dict(module=pr["module"], obligations_proved=int(m.group(1)), wall_s=round(dt, 1)))
+        log("TLAPS %s: all %s obligations proved (%.1fs)" % (pr["module"], m.group(1), dt))
+
+
 def stage_replay(ctx, allvectors):
     for vh in sorted(set(v["_vh"] for v in allvectors)):
         stage_replay_one(ctx, vh, [{k: x for k, x in v.items() if k != "_vh"} for v in allvectors if v["_vh"] == vh])
@@ -281,6 +300,7 @@ def check(pid, tier, seed):
     ctx.wd = lib.workdir(pid + ".run")
     try:
         vectors = stage_mc(ctx)
+        stage_proofs(ctx)
         stage_replay(ctx, vectors)
         stage_record(ctx)
         for k, more in enumerate(ctx.cfg.get("more", [])):
@@ -305,9 +325,11 @@ def check(pid, tier, seed):
                traces_validated_against_impl=ctx.replayed + ctx.validated,
                samples=ctx.samples[:4] or [dict(note="no sample")],
                vectors_replayed_spec_to_impl=ctx.replayed, recorded_runs_validated_impl_to_spec=ctx.validated,
-               out_of_domain_skipped=ctx.skipped, tlc_runs=ctx.mc_runs, trace_stages=ctx.trace_stages, selftest=ctx.selftest, selftest_more=ctx.selftest_more,
+               out_of_domain_skipped=ctx.skipped, tlc_runs=ctx.mc_runs, trace_stages=ctx.trace_stages, selftest=ctx.selftest, selftest_more=ctx.selftest_more, tlaps_proofs=getattr(ctx, "proofs", []),
                known_findings_hit=known, disagreements=len(ctx.failures),
                exhaustive=bool(ctx.cfg.get("exhaustive_note")), rule=ctx.cfg.get("rule", ""))
+    if getattr(ctx, "proofs", []):
+        cov["obligations"] = cov["discharged"] = sum(p["obligations_proved"] for p in ctx.proofs)
     cov.update(ctx.extra)
     lib.write_evidence(pid, tier, seed, cov, ctx.cfg.get("assumptions", []), time.time() - t0, nviol)
     log("%s %s: %d violations, %d known findings, %.1fs" % (pid, tier, nviol, len(known), time.time() - t0))
